@@ -16,9 +16,44 @@ P_SCALES = [0.05, 0.5, 2.0, 8.0, 20.0]
 
 
 @st.composite
-def p_spec(draw, n_min=1, n_max=10, k_min=2, k_max=6, scales=P_SCALES):
-    return {"n": draw(st.integers(n_min, n_max)), "K": draw(st.integers(k_min, k_max)),
-            "scale": draw(st.sampled_from(scales)), "pseed": draw(seeds)}
+def p_spec(draw, n_min=1, n_max=10, k_min=2, k_max=6, scales=P_SCALES, pkinds=("softmax",)):
+    ps = {"n": draw(st.integers(n_min, n_max)), "K": draw(st.integers(k_min, k_max)),
+          "scale": draw(st.sampled_from(scales)), "pseed": draw(seeds)}
+    kind = draw(st.sampled_from(list(pkinds)))
+    if kind != "softmax":
+        ps["pkind"] = kind
+    return ps
+
+
+# predictions with exact structure (what continuous draws never produce): entries on a coarse dyadic grid, rows that are
+# rotations of one vector (exactly balanced clusters), exactly uniform rows mixed with peaked ones
+STRUCTURED_P = ("softmax", "softmax", "dyadic", "rotations", "uniform_mix")
+
+
+def _structured_P(ps):
+    rs = np.random.RandomState(ps["pseed"])
+    n, K = ps["n"], ps["K"]
+    kind = ps["pkind"]
+    if kind == "dyadic":
+        tot = 8 if K <= 7 else 64
+        C = np.ones((n, K), dtype=int)
+        for i in range(n):
+            C[i] += rs.multinomial(tot - K, np.ones(K) / K) if tot > K else 0
+        return C / C.sum(1, keepdims=True)
+    if kind == "rotations":
+        base = np.ones(K)
+        base[0] += rs.choice([2.0, 6.0, 14.0])
+        if K > 2:
+            base[1] += rs.choice([0.0, 1.0])
+        base = base / base.sum()
+        return np.array([np.roll(base, i % K) for i in range(n)])
+    P = np.full((n, K), 1.0 / K)
+    for i in range(n if K > 1 else 0):
+        if rs.rand() < 0.6:
+            peak = rs.choice([0.5, 0.75]) if K == 2 else rs.choice([0.5, 0.7])
+            P[i] = (1.0 - peak) / (K - 1)
+            P[i, rs.randint(K)] = peak
+    return P
 
 
 def softmax(L):
@@ -28,11 +63,15 @@ def softmax(L):
 
 
 def build_logits(ps):
+    if ps.get("pkind"):
+        return np.log(_structured_P(ps))
     return np.random.RandomState(ps["pseed"]).randn(ps["n"], ps["K"]) * ps["scale"]
 
 
 def build_P(ps, floor=1e-9):
     """Row-stochastic matrix in the open simplex, entries in [floor, 1-floor] (epsilon clipping inactive)."""
+    if ps.get("pkind"):
+        return _structured_P(ps)
     P = softmax(build_logits(ps))
     if floor:
         P = np.clip(P, floor, None)
@@ -44,7 +83,7 @@ def build_P(ps, floor=1e-9):
 # data sets
 
 @st.composite
-def x_spec(draw, d_min=1, d_max=4, kinds=("normal", "grid", "scaled")):
+def x_spec(draw, d_min=1, d_max=4, kinds=("normal", "grid", "scaled", "blobs", "line", "sorted")):
     return {"d": draw(st.integers(d_min, d_max)), "xseed": draw(seeds), "xkind": draw(st.sampled_from(list(kinds)))}
 
 
@@ -58,6 +97,17 @@ def build_X(xs, n, nonneg=False, d=None):
         X = rs.randn(n, d) * rs.choice([50.0, 1000.0]) + rs.choice([0.0, 100.0, 5000.0])
     elif kind == "scaled":
         X = rs.randn(n, d) * rs.choice([0.01, 1.0, 30.0]) + rs.choice([0.0, 5.0])
+    elif kind == "blobs":  # data with an actual cluster structure: 2-4 well separated groups
+        k = rs.randint(2, 5)
+        centres = rs.randint(-1, 2, size=(k, d)) * 4.0 + rs.randn(k, d) * 0.3
+        X = centres[rs.randint(k, size=n)] + rs.randn(n, d) * 0.4
+    elif kind == "line":  # equally spaced points: every distance value is repeated many times, samples arrive in order
+        X = np.arange(n, dtype=float)[:, None] * rs.choice([0.25, 0.5, 1.0], size=d) - rs.choice([0.0, 1.0, 2.5])
+    elif kind == "sorted":  # samples sorted along the first feature (ascending or descending)
+        X = rs.randn(n, d)
+        X = X[np.argsort(X[:, 0])]
+        if rs.randint(2):
+            X = X[::-1]
     else:
         X = rs.randn(n, d)
     if nonneg:
@@ -116,6 +166,17 @@ def ref_affinity(aspec, X):
     if aspec["form"] == "indef":
         A = rs.randn(n, n)
         return np.ascontiguousarray((A + A.T) / 2)
+    if aspec["form"] == "foreign":
+        # a matrix that has nothing to do with the kernel / metric the objective was constructed with: evaluate() takes any
+        # affinity (symmetric cost with zero diagonal that violates the triangle inequality / indefinite similarity)
+        rs2 = np.random.RandomState(aspec["aseed"] + 7)
+        if aspec["fam"] == "kernel":
+            A = rs2.randn(n, n)
+            return np.ascontiguousarray((A + A.T) / 2)
+        A = np.abs(rs2.randn(n, n)) ** 2 + 0.05
+        A = (A + A.T) / 2
+        np.fill_diagonal(A, 0.0)
+        return np.ascontiguousarray(A)
     if aspec["form"] == "randdist":
         A = np.abs(rs.randn(n, n)) + 0.1
         A = (A + A.T) / 2
